@@ -4265,16 +4265,22 @@ def Gillespie_simple_contagion(G, spontaneous_transition_graph,
                     #add edge to any induced lists
 
                     nbr_status = status[nbr]
+                    if nbr == modified_node: #self-loop: both ends have just changed
+                        old_nbr_status = old_status
+                    else:
+                        old_nbr_status = nbr_status
                     
                     if (modified_node, nbr) not in get_weight[transition]:
                         get_weight[transition][(modified_node,nbr)] = get_weight[transition][(nbr,modified_node)]
-                    if transition[0] == (old_status, nbr_status):
+                    if transition[0] == (old_status, old_nbr_status):
                         potential_transitions[transition].remove((modified_node, nbr))
                     if transition[0] == (status[modified_node], nbr_status):
                         potential_transitions[transition].update((modified_node, nbr), weight_increment = get_weight[transition][(modified_node, nbr)])
                 for pred in G.predecessors(modified_node):
                     #remove edge from any induced lists
                     #add edge to any induced lists
+                    if pred == modified_node: #self-loop: already handled above
+                        continue
 
                     pred_status = status[pred]
                     if (pred, modified_node) not in get_weight[transition]:
@@ -4294,6 +4300,14 @@ def Gillespie_simple_contagion(G, spontaneous_transition_graph,
                     elif (nbr, modified_node) not in get_weight[transition]:
                         get_weight[transition][(nbr, modified_node)] = get_weight[transition][(modified_node, nbr)]
                         
+                    if nbr == modified_node: 
+                        #self-loop: the pair (node, node) is a single entry and both of its ends have just changed
+                        if transition[0] == (old_status, old_status):
+                            potential_transitions[transition].remove((modified_node, nbr))
+                        if transition[0] == (nbr_status, nbr_status):
+                            potential_transitions[transition].update((modified_node, nbr), weight_increment = get_weight[transition][(modified_node, nbr)])
+                        continue
+
                     if transition[0] == (nbr_status, old_status):
                         potential_transitions[transition].remove((nbr, modified_node))
                     if transition[0] == (old_status, nbr_status):
